@@ -214,9 +214,9 @@ and the model's `multibitAdd` answers `Err.unsupported` on the ValueError fallba
 /-- non-vacuity: bus `a` arrives as bits 2, 0, 3 (bit 1 missing), interleaved with a scalar net `clk`
     and a bit of another bus; the reader's loop yields cable `a` based at 0 with four wires -/
 def exItems : List NetItem :=
-  [⟨"a".toList, "a".toList, some 2, [.port 0 2]⟩, ⟨"clk".toList, "clk".toList, none, [.port 1 0]⟩,
-   ⟨"a".toList, "a".toList, some 0, [.port 0 0]⟩, ⟨"&_b".toList, "_b".toList, some 5, []⟩,
-   ⟨"a".toList, "a".toList, some 3, [.port 0 3]⟩]
+  [⟨"a".toList, "a".toList, some 2, [.port 0 2], 2⟩, ⟨"clk".toList, "clk".toList, none, [.port 1 0], 0⟩,
+   ⟨"a".toList, "a".toList, some 0, [.port 0 0], 9⟩, ⟨"&_b".toList, "_b".toList, some 5, [], 5⟩,
+   ⟨"a".toList, "a".toList, some 3, [.port 0 3], 3⟩]
 
 example : (match exItems.foldlM (fun cs it => multibitAdd cs it.data it.pins) [] with
     | .ok cs => (busOf "a".toList cs).map (fun c => (c.lo, c.ws)) ==
